@@ -733,30 +733,8 @@ def rule_pos_append(ctx, R="C01/pos-append"):
                 if st["k"] == "assign" and st["p"]["l"] == 0 and not st["p"]["proj"]]
         ok = len(rets) == 1 and rets[0][0] == "call" and rets[0][1] == "std::vec::Vec::len" and strip(rets[0][2][0]) == ("field", ("param", 1), "inner")
         ctx.check(ok, R, ("position", "is-image-length"), pb.where(0), "Buffer::position() is the length of the image", "Buffer::position() returns %s" % [show(r)[:80] for r in rets])
-    wb = ctx.body(R, "mem_writer::Buffer::write_all")
-    if wb is not None:
-        ow = Origin(wb)
-        READS = ("std::vec::Vec::len", "std::vec::Vec::capacity", "std::vec::Vec::is_empty", "mem_writer::Buffer::position", "mem_writer::Buffer::len", "mem_writer::Buffer::is_empty")
-        def _self_rooted(e):
-            e = strip(e)
-            while isinstance(e, tuple) and e and e[0] in ("field", "deref", "ref"):
-                e = strip(e[1])
-            return e == ("param", 1)
-        appends, others = [], []
-        for bi, t in wb.calls():
-            cv = CalleeView(t["callee"])
-            a = ow.call_args(bi)
-            if not any(_self_rooted(x) for x in a) or cv.short in READS:
-                continue
-            if cv.short == "std::vec::Vec::extend_from_slice" and strip(a[0]) == ("field", ("param", 1), "inner") and core(a[1]) == ("param", 2):
-                appends.append(bi)
-            else:
-                others.append("%s (%s)" % (cv.short, wb.where(bi)))
-        stores = [wb.where(bi, si) for bi, blk in enumerate(wb.blocks) for si, st in enumerate(blk["stmts"])
-                  if st["k"] == "assign" and st["p"]["proj"] and st["p"]["proj"][0]["k"] == "deref" and st["p"]["l"] == 1]
-        ctx.check(len(appends) == 1 and not others and not stores, R, ("write_all", "appends-at-position"), wb.where(0),
-                  "write_all changes the image by appending the caller's bytes at position() and in no other way",
-                  "write_all does not simply append the caller's bytes at position(): %d plain append(s), other changes to the image: %s" % (len(appends), others + stores))
+    from rules import c16 as _c16w
+    _c16w.write_all_only_appends(ctx, R, ("write_all", "appends-at-position"))
 
 
 def first_buffer_growth_after(b, start):
